@@ -669,9 +669,9 @@ def w_dec_pkcs8(spec, ctx, L, H):
                 go(d, mut, "root:" + kind)
         x = M.extra_members(e.data, 2)
         if x:
-            go(u1, x, "extra-member", expect=("refuse", "extra-member"))
-            if scheme == 2:
-                go(p2, x, "extra-member", expect=("refuse", "extra-member"))
+            cls = "encrypted-container-extra-member"
+            go(u1, x, cls, expect=("refuse", cls))
+            go(p1 if scheme == 1 else p2, x, cls, expect=("refuse", cls))
         if e.protection:
             for kind, mut in M.root_mutations(inner, rng):
                 go(u1, D.reencrypt(L, e, mut), "root:%s(inside-encryption)" % kind, views=[mut])
